@@ -565,6 +565,9 @@ func init() {
 			return []Value(out)
 		}
 	}
+	intrinsics[zz+"Keccak"] = func(e *Engine, fr *frame, a []Value) Value {
+		return keccak(true)(e, fr, []Value{[]Value{a[0]}})
+	}
 	intrinsics[ModPath+"/crypto.Keccak256"] = keccak(false)
 	intrinsics[ModPath+"/crypto.Keccak256Hash"] = keccak(true)
 
@@ -655,6 +658,20 @@ func init() {
 	intrinsics["sort.Slice"] = sortSlice
 	intrinsics["sort.SliceStable"] = sortSlice
 
+	intrinsics["reflect.DeepEqual"] = func(e *Engine, fr *frame, a []Value) Value {
+		x, y := a[0].(iface), a[1].(iface)
+		if x.t == nil || y.t == nil {
+			return e.tt.Bool(x.t == nil && y.t == nil)
+		}
+		if !types.Identical(x.t, y.t) {
+			return e.tt.Bool(false)
+		}
+		switch x.v.(type) {
+		case array, *Term, strV, structure:
+			return e.equals(x.t, x.v, y.v)
+		}
+		panic(unsupported{"reflect.DeepEqual on " + x.t.String()})
+	}
 	intrinsics["errors.Is"] = func(e *Engine, fr *frame, a []Value) Value {
 		return e.equals(nil, a[0], a[1])
 	}
